@@ -2,6 +2,7 @@ package fw
 
 import (
 	"go/constant"
+	"strings"
 	"go/token"
 	"go/types"
 	"math"
@@ -611,7 +612,35 @@ func boundFromFact(f Cmp, pv *Poly) Interval {
 
 // ProvedNonNeg / ProvedPositive / ProvedNonZero combine interval and polynomial facts.
 func (e *IntervalEnv) ProvedNonNeg(v ssa.Value, b *ssa.BasicBlock) bool {
-	return e.At(v, b).NonNeg() || e.Poly.Proves(b, Cmp{P: e.Poly.Of(v), Rel: GE})
+	if e.At(v, b).NonNeg() || e.Poly.Proves(b, Cmp{P: e.Poly.Of(v), Rel: GE}) {
+		return true
+	}
+	// len(x) - v < 0 (or <= 0): v exceeds a length, which is never negative
+	pv := e.Poly.Of(v)
+	for _, f := range e.Poly.Facts(b) {
+		if f.Rel != LT && f.Rel != LE {
+			continue
+		}
+		rest := f.P.Add(pv)
+		if len(rest.T) > 2 || rest.Const() < 0 {
+			continue
+		}
+		okAtoms := true
+		n := 0
+		for k, c := range rest.T {
+			if k == "" {
+				continue
+			}
+			n++
+			if !(strings.HasPrefix(k, "len(") || strings.HasPrefix(k, "cap(")) || !c.IsInt64() || c.Int64() != 1 {
+				okAtoms = false
+			}
+		}
+		if okAtoms && n == 1 {
+			return true
+		}
+	}
+	return false
 }
 
 func (e *IntervalEnv) ProvedNonZero(v ssa.Value, b *ssa.BasicBlock) bool {
